@@ -272,6 +272,17 @@ partial def litMeta : ALit → Bool
   | .arr xs => xs.any litMeta
   | _ => false
 
+/-- a string concatenation: an expression text with a string literal in it; `ends` = it starts and ends with a literal of the
+same quote kind (only the inner quote character tells it from ONE literal) -/
+def concatText (ends : Bool) (s : Str) : Bool :=
+  (s.contains '"' || s.contains '\'') &&
+    (!ends || (s.head? == s.getLast? && s.length ≥ 2 && (s.head? == some '"' || s.head? == some '\'')))
+
+partial def litConcat (ends : Bool) : ALit → Bool
+  | .arith s => concatText ends s
+  | .arr xs => xs.any (litConcat ends)
+  | _ => false
+
 def condAny (p : α → Bool) : Cond α → Bool
   | .single a => p a
   | .and l r | .or l r => condAny p l || condAny p r
@@ -287,6 +298,19 @@ def stmtMeta : AStmt → Bool
   | .call _ as | .method _ _ as => as.any litMeta
   | .activate g | .complete g | .schedule _ g => strHasMeta g
   | _ => false
+
+def atomConcat (ends : Bool) : AAtom → Bool
+  | .cmp _ _ v | .call _ _ _ v | .mcount _ _ v => litConcat ends v
+  | .arith _ _ v => concatText ends v
+  | _ => false
+
+def stmtConcat (ends : Bool) : AStmt → Bool
+  | .set _ v | .append _ v | .log v | .wfdata _ v => litConcat ends v
+  | .call _ as | .method _ _ as => as.any (litConcat ends)
+  | _ => false
+
+def ruleConcat (ends : Bool) (r : ARule) : Bool :=
+  condAny (atomConcat ends) r.cond || r.stmts.any (stmtConcat ends)
 
 def ruleMeta (r : ARule) : Bool :=
   condAny atomMeta r.cond || r.stmts.any stmtMeta
@@ -307,6 +331,8 @@ def tagsOf (c : Case) (rs : List ARule) : List String :=
   ++ (if n ≥ 2 then ["multi_rule"] else [])
   ++ (if rs.any ruleMeta then ["strlit_meta"] else [])
   ++ (if rs.any headerMeta then ["header_meta"] else [])
+  ++ (if rs.any (ruleConcat false) then ["str_concat"] else [])
+  ++ (if rs.any (ruleConcat true) then ["str_concat_lit_ends"] else [])
   ++ (if n ≥ 1 && sz ≥ 3 then ["nontrivial"] else [])
 
 def firstDiff (a b : String) : Nat := Id.run do
